@@ -560,6 +560,21 @@ impl<K, V, S> LruCache<K, V, S> {
     }
 }
 
+struct ReallocationGuard<'a, K, V> {
+    table: &'a mut RawTable<Entry<K, V>>,
+    seal: EntryPtr<K, V>,
+    current_size: &'a mut usize
+}
+
+impl<'a, K, V> Drop for ReallocationGuard<'a, K, V> {
+    fn drop(&mut self) {
+        self.table.clear_no_drop();
+        self.seal.get_mut().next = self.seal;
+        self.seal.get_mut().prev = self.seal;
+        *self.current_size = 0;
+    }
+}
+
 fn make_hash<K, S>(hash_builder: &S, val: &K) -> u64
 where
     K: Hash + ?Sized,
@@ -694,15 +709,27 @@ where
         let mut old_table = RawTable::try_with_capacity(new_capacity)?;
         mem::swap(&mut self.table, &mut old_table);
 
+        // Hashing a key may panic. While entries are being moved, the list
+        // contains pointers into the old table, which is freed during
+        // unwinding. In that case, this guard sets the cache as empty, leaking
+        // the entries moved so far.
+
+        let guard = ReallocationGuard {
+            table: &mut self.table,
+            seal: self.seal,
+            current_size: &mut self.current_size
+        };
+
         for entry in old_table.into_iter() {
             let mut prev_entry = entry.prev;
             let mut next_entry = entry.next;
-            let bucket = self.table.insert(hasher(&entry), entry, &hasher);
+            let bucket = guard.table.insert(hasher(&entry), entry, &hasher);
             let entry_ptr = EntryPtr::new(bucket.as_ptr());
             prev_entry.get_mut().next = entry_ptr;
             next_entry.get_mut().prev = entry_ptr;
         }
 
+        mem::forget(guard);
         Ok(())
     }
 
